@@ -8,6 +8,7 @@ package main
 
 import (
 	"fmt"
+	"math/rand"
 	"strings"
 
 	"oss.terrastruct.com/d2/d2renderers/d2ascii"
@@ -34,7 +35,7 @@ func render(w *outl.Worker, d *d2target.Diagram, cs charset.Type) map[string]any
 }
 
 func texts(d *d2target.Diagram) []string {
-	var t []string
+	t := []string{}
 	add := func(s string) {
 		if s != "" {
 			t = append(t, s)
@@ -71,8 +72,37 @@ func texts(d *d2target.Diagram) []string {
 }
 
 type job struct {
-	src    string
-	engine string
+	src     string
+	engine  string
+	profile string // simple: top-level leaves only | chain: leaves + unlabelled connections | general
+}
+
+var simpleWords = []string{"alpha", "beta", "gamma", "delta", "a longer label here", "x", "42", "the quick brown fox", "Q", "ok go", "db-1", "a_b", "UPPER lower"}
+
+// simpleProgram: 1..6 top-level leaf shapes with default label position and 7-bit single-line labels; with edges, a
+// few unlabelled connections between distinct shapes
+func simpleProgram(r *rand.Rand, edges bool) string {
+	n := 1 + r.Intn(6)
+	var sb strings.Builder
+	for i := 0; i < n; i++ {
+		fmt.Fprintf(&sb, "s%d: \"%s\"", i, simpleWords[r.Intn(len(simpleWords))])
+		if r.Intn(3) > 0 {
+			fmt.Fprintf(&sb, " {shape: %s}", outl.Shapes[r.Intn(len(outl.Shapes))])
+		}
+		sb.WriteString("\n")
+	}
+	if edges && n > 1 {
+		for k := 0; k < 1+r.Intn(n); k++ {
+			a, b := r.Intn(n), r.Intn(n)
+			if a != b {
+				fmt.Fprintf(&sb, "s%d %s s%d\n", a, []string{"->", "--", "<-", "<->"}[r.Intn(4)], b)
+			}
+		}
+	}
+	if r.Intn(3) == 0 {
+		sb.WriteString("direction: " + []string{"up", "down", "left", "right"}[r.Intn(4)] + "\n")
+	}
+	return sb.String()
 }
 
 func boardCases(w *outl.Worker, j job, path string, d *d2target.Diagram, out *[]map[string]any) {
@@ -89,7 +119,7 @@ func boardCases(w *outl.Worker, j job, path string, d *d2target.Diagram, out *[]
 			"pos": s.LabelPosition, "level": s.Level, "container": container, "icon": s.Icon != nil})
 	}
 	*out = append(*out, map[string]any{"k": "board",
-		"in":  map[string]any{"src": j.src, "engine": j.engine, "board": path},
+		"in":  map[string]any{"src": j.src, "engine": j.engine, "board": path, "profile": j.profile},
 		"out": map[string]any{"ascii": render(w, d, charset.ASCII), "unicode": render(w, d, charset.Unicode), "shapes": shapes, "texts": texts(d), "nconn": len(d.Connections)},
 		"triv": len(d.Shapes) == 0})
 	for _, l := range d.Layers {
@@ -130,7 +160,8 @@ func run(c *hl.Ctx) error {
 		in := cs["in"].(map[string]any)
 		w := outl.NewWorker()
 		want, _ := in["board"].(string)
-		for _, m := range runJob(w, job{src: in["src"].(string), engine: in["engine"].(string)}) {
+		prof, _ := in["profile"].(string)
+		for _, m := range runJob(w, job{src: in["src"].(string), engine: in["engine"].(string), profile: prof}) {
 			if b, _ := m["in"].(map[string]any)["board"].(string); b == want || m["k"] == "error" {
 				c.Emit(m)
 			}
@@ -138,13 +169,13 @@ func run(c *hl.Ctx) error {
 		return nil
 	}
 	r := c.Rand()
-	n := c.Pick(300, 25000)
+	n := c.Pick(200, 25000)
 	if c.Search && c.Tier != "thorough" {
 		n = 1500
 	}
 	var jobs []job
 	for _, s := range fixed {
-		jobs = append(jobs, job{s, "elk"}, job{s, "dagre"})
+		jobs = append(jobs, job{s, "elk", "general"}, job{s, "dagre", "general"})
 	}
 	g := &outl.Gen{R: r, Special: true}
 	for i := 0; i < n; i++ {
@@ -156,7 +187,25 @@ func run(c *hl.Ctx) error {
 			engine = "elk"
 		}
 		g.DescendantEdges = engine == "elk"
-		jobs = append(jobs, job{g.Program(1+r.Intn(8), r.Intn(7)).Source(g), engine})
+		jobs = append(jobs, job{g.Program(1+r.Intn(8), r.Intn(7)).Source(g), engine, "general"})
+	}
+	for i := 0; i < n/2; i++ {
+		engine := "dagre"
+		if r.Intn(3) == 0 {
+			engine = "elk"
+		}
+		if i%3 == 0 {
+			// one plain shape alone on the board: nothing can overlap its label
+			src := fmt.Sprintf("s0: \"%s\"", simpleWords[r.Intn(len(simpleWords))])
+			if r.Intn(5) > 0 {
+				src += fmt.Sprintf(" {shape: %s}", outl.Shapes[r.Intn(len(outl.Shapes))])
+			}
+			jobs = append(jobs, job{src + "\n", engine, "single"})
+		} else if i%3 == 1 {
+			jobs = append(jobs, job{simpleProgram(r, false), engine, "simple"})
+		} else {
+			jobs = append(jobs, job{simpleProgram(r, true), engine, "chain"})
+		}
 	}
 	res := make([][]map[string]any, len(jobs))
 	outl.Par(len(jobs), func(i int, w *outl.Worker) { res[i] = runJob(w, jobs[i]) })
@@ -168,6 +217,7 @@ func run(c *hl.Ctx) error {
 			}
 			c.Emit(m)
 			c.Count("board:" + jobs[i].engine)
+			c.Count("profile:" + jobs[i].profile)
 			o := m["out"].(map[string]any)
 			c.Count(fmt.Sprintf("shapes:%02d+", len(o["shapes"].([]any))/4*4))
 		}
